@@ -274,6 +274,7 @@ void thread_join(int tid);
 void yield_point(const char *what);
 void sleep_ns(uint64_t ns);
 bool advance_idle();                // driver (dispatch mode): let time pass until the next event; false if nothing can ever happen
+bool wait_kernel_event();           // driver (dispatch mode): block like a poll would; false if nothing can ever happen
 void park();                        // block until unpark(tid)
 void unpark(int tid);
 int  self_id();
